@@ -4,9 +4,11 @@ from fractions import Fraction
 from vcheck import Case, hx, flist, parse_vals
 
 PID = "C12"
-RULE = ("one case = one request (rule n a b | pair n a b | rule_default n | int n a b f | int_default a b f | values.. ); "
+RULE = ("one case = one request (rule n a b | pair n a b | rule_default n | int n a b f | int_default a b f | values.. ), one nested integration "
+        "(nest: depth 1..6, every level through any overload) or one session of requests made one after the other in one process (sess); "
         "non-trivial = a rule request with odd n, or n > 64, or an interval that does not contain 0 (this includes every reversed "
-        "and far-from-origin interval), or a size-guard request with mismatched lengths; distinct by case text")
+        "and far-from-origin interval), or a size-guard request with mismatched lengths, or a nested integration of depth >= 2, or a session "
+        "of >= 2 requests; distinct by case text")
 LEVEL_TEXT = ("Theorems (Coq, every n >= 1, every interval, every real z_i, pp_i produced by the Newton stage): the table assembled by the "
               "mirrored assignment has n rows, node_i + node_(n-1-i) = a+b and equal weights for every i (for odd n the middle node is "
               "xmid + hw*z_mid, symmetric iff hw*z_mid = 0); swapping the limits mirrors the nodes and negates the weights; the rule on [a,b] is the "
@@ -18,18 +20,28 @@ LEVEL_TEXT = ("Theorems (Coq, every n >= 1, every interval, every real z_i, pp_i
               "implementation by exhaustive enumeration of n (thorough: every n = 1..512 and a sample up to 4000; quick: every n = 1..64 and a sample up to 512) "
               "on intervals including reversed, far from the origin, of every magnitude (ladder 1e-305 .. 1e300, subnormal lengths, end points up to DBL_MAX) and, through the integration overloads, with end points 1 .. 1e6 ulps apart: ordering, interior, symmetry, sign and sum of the weights, and exactness on "
               "every monomial and Legendre-basis polynomial of degree <= min(2n-1, 60) with the verified moment checker run in exact integer arithmetic on the "
-              "produced doubles for n <= 40 (floats with math.fsum above) against an a-priori rounding slack.")
+              "produced doubles for n <= 40 (floats with math.fsum above) against an a-priori rounding slack. "
+              "Re-entrant use and call histories: the model has no state (the code has none: no statics, a fresh value vector per call), integrands that call the library are "
+              "modelled as functions into outcomes (gl_integrate_funM, gl_nest); theorems: an always-returning integrand gives the plain overloads (C12_reentrant_pure), nested integrations "
+              "with pairwise equal orders and limits agree whichever overload each level uses (C12_nest_overloads_agree), a guard reached by the innermost integrand ends the whole nest "
+              "(C12_nest_exit_propagates). On the implementation: nested integrations of depth 1..6 through every mix of the overloads (agreement of the three overloads at the top, exactness on "
+              "polynomial cores against the exact tensor integral, size-guard probes made by the integrand itself) and sessions in one process (adjacent equal panels at offsets up to 1e12/n^2 widths, "
+              "the same request with limits moved by 1e-16 .. 1e-6 relative, changing orders, reversed limits, repeats, requests abandoned by an exception of their integrand at any depth, "
+              "size-guard probes after all of these); every answer is compared with the stateless model and checked against the clauses of its own request.")
 LEVEL_NOTE = ("Coq 8.16.1 kernel; theorems over R (standard-library real axioms, Coquelicot for RInt); hand-written model tied by differential correspondence "
               "(bit-identical expected); the Newton loop of the source has no iteration cap: the model gives it fuel 100 and reports FUEL; "
               "the function overload reads row[0] before the row-size guard of the value overload: an empty row is an out-of-bounds read (model outcome OOB, not generated); "
               "std::cos / M_PI modelled by OCaml's cos (glibc) and the literal 0x1.921fb54442d18p+1")
 TOL = (1e-13, 0.0)
 TRUSTED = ["std::cos is glibc's cos on both sides; M_PI is the literal 3.14159265358979323846",
+           "S4 slack for nested polynomial integrals (a priori, _nest_reference): per level the moment bound of DERIVATION in the variable the polynomial is written in, combined as prod(B_j(1+r_j)) - prod(B_j), plus one rounding per operation of the core",
            "S4 slack for 'exact to rounding' (a priori, see checks/C12.py: W(n) = (8 ln n + 8)*1e-14 + 32 n 2^-53 relative to |b-a| max|g|, plus node-position terms, plus (n+2) subnormal quanta where results are subnormal)"]
-ASSUMPTIONS = ["rule requests are generated with |b-a| >= 1e-4*max(|a|,|b|) (and >= 2e6 subnormal quanta, n <= 64 there) so that the n nodes are distinct doubles (node spacing ~ 6|b-a|/n^2 against an ulp of max(|a|,|b|)); "
+ASSUMPTIONS = ["rule requests are generated with |b-a| >= 1e-4*max(|a|,|b|) (kind far-narrow and adjacent panels in sessions: >= 1e-12 n^2 max(|a|,|b|), n <= 1000) (and >= 2e6 subnormal quanta, n <= 64 there) so that the n nodes are distinct doubles (node spacing ~ 6|b-a|/n^2, first node 1.45|b-a|/n^2 inside, against an ulp of max(|a|,|b|)); "
                "intervals whose end points are 1 .. 1e6 ulps or 1e-16 .. 1e-6 relative apart are driven through the three integration overloads and the sum of the weights only (agreement, exactness, sum w = b-a), at every magnitude from 0 and the subnormals to 1e300",
                "magnitudes: every decade ladder 1e-305 .. 1e300 in every position relative to the origin, subnormal lengths, and end points up to DBL_MAX; requests whose a+b or b-a is not a double are the region of K-C12-1",
-               "convergence of the Newton iteration to distinct roots and positivity of the weights are not theorems; they are enumerated on the implementation (S4)"]
+               "convergence of the Newton iteration to distinct roots and positivity of the weights are not theorems; they are enumerated on the implementation (S4)",
+               "nested integrations and sessions use limits of moderate magnitude (2^-100 .. 2^100), orders whose product stays below 1200 (quick) / 4000 (thorough) evaluations of the innermost integrand, and depth <= 6; "
+               "an integrand abandons a request by throwing an exception of the harness; Integrate(..., \"Gauss-Legendre_2\") and Integrate_2D/3D are other entry points (not driven here)"]
 
 EPS = 2.0 ** -53
 NEWTON = 1e-14   # the source's eps: a-priori bound on the last Newton step
